@@ -576,8 +576,19 @@ func (ts *Terms) call(x *ssa.Call, fr *Frame, depth int) *Term {
 		}
 		return t
 	}
-	// irismod callee with a body: inline its return value when it is a simple
-	// accessor (single return, depth bounded), otherwise keep an opaque call term.
+	// irismod constructor-like callee (pure, single block, returns a struct or a
+	// pointer to one): see through it so that NewX(a, b) and X{A: a, B: b} render alike.
+	if f := c.StaticCallee(); f != nil && f.Blocks != nil && len(f.Blocks) == 1 && isIrismodFunc(f) && frameDepth(fr) < 12 && f.Signature.Results().Len() == 1 {
+		rt := f.Signature.Results().At(0).Type()
+		if p, ok := rt.(*types.Pointer); ok {
+			rt = p.Elem()
+		}
+		if _, isStruct := rt.Underlying().(*types.Struct); isStruct && !isKeeperStruct(rt) && len(ts.cx.transPrimKinds(f)) == 0 {
+			if t := ts.Inlined(x, fr, 0, 12); t != nil && t.Op == "struct" {
+				return t
+			}
+		}
+	}
 	t := &Term{Op: "call", Name: callName(x), Site: x.Pos()}
 	t.Args = ts.callArgs(x, fr, depth, nil)
 	return t
